@@ -42,6 +42,7 @@ import (
 	"github.com/postalsys/muti-metroo/internal/sysinfo"
 	"github.com/postalsys/muti-metroo/internal/transport"
 	"github.com/postalsys/muti-metroo/internal/udp"
+	"github.com/postalsys/muti-metroo/internal/verifhook"
 )
 
 // directDialTimeout is the timeout for direct TCP connections (no mesh route).
@@ -1816,6 +1817,7 @@ func (a *Agent) nodeInfoAdvertiseLoop() {
 
 // processFrame dispatches incoming frames to the appropriate handler.
 func (a *Agent) processFrame(peerID identity.AgentID, frame *protocol.Frame) {
+	defer verifhook.At("agent.frame.done", a, peerID, frame)
 	switch frame.Type {
 	case protocol.FrameStreamOpen:
 		a.handleStreamOpen(peerID, frame)
